@@ -118,6 +118,16 @@ def analyse_run(ctx: Ctx, suite: str, spec: Dict[str, Any], exp: Dict[str, Any],
         n = len(t_begin.get(i, []))
         if n > 1 or (ok_run and n != 1):
             ctx.violation(suite, case, f"step {i} ({st.get('group')}:{st.get('features')}) began {n} times in mode {mode}", n, 1)
+    # ... and every feature (uuid) belongs to exactly one step that began
+    owners: Dict[int, List[int]] = {}
+    for i, st in enumerate(steps):
+        if st["kind"] == "fg":
+            for u in st["outs"]:
+                owners.setdefault(u, []).append(i)
+    for u, own in owners.items():
+        nb = sum(len(t_begin.get(i, [])) for i in own)
+        if nb > 1 or len(own) > 1:
+            ctx.violation(suite, case, f"feature {exp['names'].get(str(u), u)} was handed to a calculation {max(nb, len(own))} times (steps {own}, mode {mode})", nb, 1)
     calc = [e for e in rr.events if e.get("ev") == "begin"]
     seen: Dict[Any, int] = {}
     for e in calc:
@@ -162,6 +172,8 @@ def runs_suite(ctx: Ctx, n: int, modes: List[str]) -> None:
     metas = []
     for k in range(n):
         spec = S.gen_spec(ctx.rng, max_feats=ctx.rng.choice([3, 5, 8, 10]), frameworks=("pa",) if ctx.rng.random() < 0.6 else (ctx.rng.choice(["pd", "py"]),))
+        if spec["roots"][0]["fw"] == "pa" and ctx.rng.random() < 0.4:
+            S.add_declared_types(ctx.rng, spec)  # typed / untyped mixes inside one group (PyArrow only: C17 finding elsewhere)
         classes = S.build_classes(spec, hooks={"before_calc": _delay_hook})
         try:
             sess = S.prepare(spec, classes)
